@@ -64,6 +64,8 @@ def mk_sol(problem, objs, cv=0.0):
     if prev is not None and _CLONE[0] % 3 == 0 and len(prev.objectives) == len(objs):
         import copy
         s = copy.deepcopy(prev)
+    elif _CLONE[0] % 5 == 0 and problem.function is None and isinstance(cv, (int, float)) and 0 <= cv < INF and len(objs) == problem.nobjs:
+        s = _evaluated(problem, objs, cv)
     else:
         s = C.Solution(problem)
     s.objectives[:] = list(objs)
@@ -74,6 +76,25 @@ def mk_sol(problem, objs, cv=0.0):
     if len(_MADE) < 200000:
         import weakref
         _MADE[id(s)] = (weakref.ref(s), [o for o in objs], cv)     # weak: the registry must not keep objects (and their problems) alive
+    return s
+
+
+def _evaluated(problem, objs, cv):
+    """every fifth solution is produced the way algorithms produce them: evaluated through Problem.__call__ by a function that
+    returns the wanted values (whatever the library attaches to a solution at evaluation time is then present)"""
+    from platypus.types import Real
+    try:
+        if problem.nvars and problem.types[0] is None:
+            problem.types[:] = Real(0, 1)
+        o = list(objs)
+        problem.function = (lambda v: (list(o), [cv] * problem.nconstrs)) if problem.nconstrs > 0 else (lambda v: list(o))
+        s = C.Solution(problem)
+        s.variables[:] = [0.5] * problem.nvars
+        s.evaluate()
+    except Exception:
+        s = C.Solution(problem)
+    finally:
+        problem.function = None
     return s
 
 
@@ -190,20 +211,40 @@ def call(f, *a, **k):
 TIMEOUTS = 0
 
 
-def call_guarded(f, *a, seconds=2, **k):
-    """like `call`, with a watchdog: library code that does not return becomes the observation err:timeout"""
-    import signal
+class watchdog:
+    """stop library code that does not return.  Two timers: CPU time consumed by this process (`cpu` seconds: code that spins; a
+    machine that is merely busy with other work does not trip it) and wall time (`wall`, ten times longer by default: code
+    that blocks without computing).  `on_fire` builds the exception raised inside the watched code."""
 
-    def on_alarm(signum, frame):
-        raise CallTimeout()
-    old = signal.signal(signal.SIGALRM, on_alarm)
-    signal.alarm(seconds)
+    def __init__(self, cpu, wall=None, on_fire=None):
+        self.cpu, self.wall = cpu, wall if wall is not None else 10 * cpu
+        self.on_fire = on_fire or (lambda: CallTimeout())
+
+    def __enter__(self):
+        import signal
+
+        def fire(signum, frame):
+            raise self.on_fire()
+        self.old = (signal.signal(signal.SIGVTALRM, fire), signal.signal(signal.SIGALRM, fire))
+        signal.setitimer(signal.ITIMER_VIRTUAL, self.cpu)
+        signal.setitimer(signal.ITIMER_REAL, self.wall)
+        return self
+
+    def __exit__(self, *exc):
+        import signal
+        signal.setitimer(signal.ITIMER_VIRTUAL, 0)
+        signal.setitimer(signal.ITIMER_REAL, 0)
+        signal.signal(signal.SIGVTALRM, self.old[0])
+        signal.signal(signal.SIGALRM, self.old[1])
+        return False
+
+
+def call_guarded(f, *a, seconds=3, **k):
+    """like `call`, with a watchdog: library code that does not return becomes the observation err:timeout"""
+    global TIMEOUTS
     try:
-        return call(f, *a, **k)
+        with watchdog(seconds):
+            return call(f, *a, **k)
     except CallTimeout:
-        global TIMEOUTS
         TIMEOUTS += 1
         return "err:timeout"
-    finally:
-        signal.alarm(0)
-        signal.signal(signal.SIGALRM, old)
